@@ -420,7 +420,9 @@ def rule_CBS(ctx, tier):
     # and once charged, always stored: no path from the successful charge returns without a store (a request that is turned
     # down after the charge — a late AlreadyTriggered, say — would move the balance although nothing was taken on)
     from .rulekit import switch_succ_with, always_reaches
-    edges = switch_succ_with(ctx, b, "variant", "Continue", "Gatekeeper::add_update_appointment")
+    # the edge on which the charge itself is known to have succeeded (the value tested IS the call's result, possibly through
+    # map_err / `?`), not every later test of something computed from it
+    edges = switch_succ_with(ctx, b, "variant", "Ok", "Gatekeeper::add_update_appointment", exact=True)
     if not edges:
         rr.anchor_missing("success edge of add_update_appointment in add_appointment")
     for sw, succ in edges:
